@@ -370,6 +370,11 @@ pub fn random_taxonomy(rng: &mut Rng) -> (Grid, Vec<String>) {
                 parts.push(p);
             }
         }
+        // now and then a conjunct that repeats one part ("x-x")
+        if rng.chance(1, 6) {
+            let p0 = parts[0].clone();
+            parts = vec![p0.clone(), p0];
+        }
         let cname = parts.join("-");
         if !names.contains(&cname) {
             let sup = names[rng.below(names.len())].clone();
@@ -461,6 +466,19 @@ pub fn random_taxonomy(rng: &mut Rng) -> (Grid, Vec<String>) {
 
 fn random_record(rng: &mut Rng, names: &[String]) -> Dict {
     let mut d = Dict::new();
+    // records of one namespace often share an id (the same entity seen again with other tags)
+    if rng.chance(1, 3) {
+        d.insert("id".into(), Value::make_ref_with_dis(*rng.pick::<&str>(&["r1", "r2"]), "Dis"));
+    }
+    // exactly one marker tag (the part of a conjunct that repeats it), plus non-marker company
+    if rng.chance(1, 8) {
+        let n = names[rng.below(names.len())].clone();
+        for p in n.split('-') {
+            d.insert(p.to_string(), Value::Marker);
+        }
+        d.insert("zzText".into(), Value::make_str("x"));
+        return d;
+    }
     for _ in 0..rng.below(7) {
         let name = if rng.chance(1, 6) { format!("zz{}", rng.below(3)) } else { names[rng.below(names.len())].clone() };
         // conjunct names are not tag names; use their parts (so conjuncts can be reflected)
@@ -574,6 +592,60 @@ pub fn run(ctx: &mut Ctx) {
         }
     } else {
         ctx.violation("HARNESS:defs-unavailable", "cannot read/parse /repo/tests/defs/defs.zinc", json!({}));
+    }
+    // ---- a very deep single-inheritance chain, queried from the deep end on a thread with the default 2 MiB stack ------
+    if ctx.shard == 2 % ctx.nshards {
+        crate::util::on_thread_stack(ctx, |ctx: &mut Ctx| {
+            for (k, depth) in [1_000usize, 5_000, 20_000].iter().enumerate() {
+                if !ctx.begin("deep-taxonomy", k as u64) {
+                    continue;
+                }
+                let mut rows: Vec<Dict> = Vec::new();
+                for i in 0..*depth {
+                    let mut d = Dict::new();
+                    d.insert("def".into(), sym(&format!("c{i}")));
+                    if i > 0 {
+                        d.insert("is".into(), Value::make_list(vec![sym(&format!("c{}", i - 1))]));
+                    }
+                    rows.push(d);
+                }
+                let nsh = leak_ns(Grid::make_from_dicts(rows));
+                let ns = nsh.get();
+                let last = format!("c{}", depth - 1);
+                let r = catch(|| {
+                    let mut bad = Vec::new();
+                    let inh = ns.inheritance(&Symbol::from(last.as_str())).len();
+                    if inh != *depth {
+                        bad.push(format!("inheritance({last}) has {inh} entries, the chain has {depth}"));
+                    }
+                    let sup = ns.all_supertypes_of(&Symbol::from(last.as_str())).len();
+                    if sup != depth - 1 {
+                        bad.push(format!("all_supertypes_of({last}) has {sup} entries, expected {}", depth - 1));
+                    }
+                    if !ns.fits(&Symbol::from(last.as_str()), &Symbol::from("c0")) || ns.fits(&Symbol::from("c0"), &Symbol::from(last.as_str())) {
+                        bad.push(format!("fits({last}, c0) / fits(c0, {last}) wrong"));
+                    }
+                    let mut rec = Dict::new();
+                    rec.insert(last.clone(), Value::Marker);
+                    let refl = ns.reflect(&rec);
+                    if refl.defs.len() != *depth || !refl.fits(&Symbol::from("c0")) {
+                        bad.push(format!("reflect({{{last}}}) has {} defs, expected {depth}", refl.defs.len()));
+                    }
+                    bad
+                });
+                ctx.eval("deep-taxonomy", *depth as u64, true);
+                ctx.note_max("max_taxonomy_depth", *depth as f64);
+                match r {
+                    Ok(bad) => {
+                        for b in bad {
+                            ctx.violation("defs:deep:wrong-answer", &b, json!({"depth": depth}));
+                        }
+                    }
+                    Err(p) => ctx.violation(&format!("defs:deep:{}", panic_sig(&p)), &p.msg, json!({"depth": depth})),
+                }
+                unsafe { reclaim_ns(nsh) };
+            }
+        });
     }
     // ---- random acyclic taxonomies ----------------------------------------------------------------
     let n = ctx.n(300, 8_000);
